@@ -953,9 +953,7 @@ func (c *Compiler) writeNode(node, parent *node, recv, v, vsrc string, depth int
 			if mode == modeSet {
 				c.wl("inspector.AssignBuf(", pfx, v, ", value, buf)")
 			}
-			if parent.typ != typeMap {
-				c.wl("return nil")
-			}
+			// No return here: v is a copy of the map entry or slice element, the parent stores it back.
 		}
 	}
 	if requireLenCheck {
